@@ -279,9 +279,7 @@ def run(ctx: Context, rep) -> None:
                            construct=f"{callee.name}(hashes={short(e)})",
                            message="recorded digests use the configured "
                            "algorithms, in the configured order")
-    if n < 8:
-        raise AnalysisError(f"C16.when: {n} digest-recording call sites, "
-                            "floor 8")
+    rep.floor("C16.when", n, 8, "instances")
     hs = ctx.fn("sedpack.io.metadata:DatasetStructure")  if False else None
     ds = ctx.repo.cls("sedpack.io.metadata:DatasetStructure")
     ann = ds.fields.get("hash_checksum_algorithms")
